@@ -14,6 +14,7 @@
 # limitations under the License.
 # ======================================================================
 
+import re
 import traceback
 from typing import Callable, NoReturn, Optional, Type, Union
 
@@ -699,7 +700,7 @@ class RPCInterface:
         :rtype: str
         :raises RPCError: with code:
             ``SupvisorsFaults.BAD_SUPVISORS_STATE`` if **Supvisors** is not in state ``OPERATION`` ;
-            ``Faults.INCORRECT_PARAMETERS`` if ``strategy`` is unknown to **Supvisors** ;
+            ``Faults.INCORRECT_PARAMETERS`` if ``strategy`` is unknown to **Supvisors** or ``regex`` is invalid ;
             ``Faults.FAILED`` if no stopped process found matching ``regex`` in **Supvisors** ;
             ``Faults.ABNORMAL_TERMINATION`` if the internal start request failed ;
             ``Faults.NOT_RUNNING`` if ``namespec`` could not be started.
@@ -709,7 +710,10 @@ class RPCInterface:
         self._check_operating()
         strategy_enum = self._get_starting_strategy(strategy)
         # get the processes whose namespec matches the regex and that are not running
-        processes = self.supvisors.context.find_runnable_processes(regex)
+        try:
+            processes = self.supvisors.context.find_runnable_processes(regex)
+        except re.error as exc:
+            self._raise(Faults.INCORRECT_PARAMETERS, 'start_any_process', f'invalid regex "{regex}": {exc}')
         # get the first process that allows a starting iaw the strategy, rules and current distribution
         namespec = None
         load_request_map = self.supvisors.starter.get_load_requests()
